@@ -33,6 +33,7 @@ import (
 	"sort"
 	"strconv"
 	"strings"
+	"testing/fstest"
 	"time"
 
 	"github.com/opencontainers/go-digest"
@@ -49,12 +50,16 @@ var ctx = context.Background()
 // tag names: sorted (Go string order) so that the pool index order is the order
 // in which Tags() must list them.  None of them is a digest string of a node.
 var tagPool = func() []string {
-	p := []string{"latest", "v1", "v1.0", "a tag with spaces", "<a&b>\"q\"", "sha256:abc", "ünï/çødé:tag", "UPPER_lower-0.9"}
+	p := []string{"latest", "v1", "v1.0", "a tag with spaces", "<a&b>\"q\"", "sha256:abc", "ünï/çødé:tag", "UPPER_lower-0.9",
+		"long-" + strings.Repeat("x", 300), "ctl\ttab\nnewline\x01\x7f", "\u2028sep\u00a0nbsp\U0001F600"}
 	sort.Strings(p)
 	return p
 }()
 
-const nExtra = 5
+const nExtra = 7
+
+// a reference name that is not valid UTF-8 (op token B): encoding/json cannot store it
+const badUTF8Name = "bad\xffutf8\xc0"
 
 // Tags(last): two cursors, a pool name and a string that is no tag; lastFrom[i] is the pool
 // index of the first name greater than lastNames[i]
@@ -87,6 +92,12 @@ func applyExtra(d ocispec.Descriptor, x int) ocispec.Descriptor {
 	case 4:
 		d.Annotations = map[string]string{"org.opencontainers.image.title": "t.txt"}
 		d.URLs = []string{"https://example.invalid/x?a=1&b=2"}
+	case 5:
+		d.Data = []byte("verif-embedded-data\x00\xff")
+		d.Platform = &ocispec.Platform{Architecture: "arm", OS: "linux", Variant: "v7", OSVersion: "10.0", OSFeatures: []string{"win32k"}}
+	case 6: // empty, non-nil containers: the same JSON as variant 0
+		d.Annotations = map[string]string{}
+		d.URLs = []string{}
 	}
 	return d
 }
@@ -217,14 +228,15 @@ func (w *world) classify(d ocispec.Descriptor) (string, string) {
 		rest[a] = v
 	}
 	d.Annotations = normAnn(rest)
+	// descriptors are compared as JSON documents (empty and absent containers are one value)
+	js, _ := json.Marshal(d)
 	for x := 0; x < nExtra; x++ {
 		e := applyExtra(w.g.Nodes[k].Desc, x)
 		e.Annotations = normAnn(e.Annotations)
-		if reflect.DeepEqual(e, d) {
+		if ej, _ := json.Marshal(e); bytes.Equal(ej, js) {
 			return fmt.Sprintf("%d.%d", k, x), ann
 		}
 	}
-	js, _ := json.Marshal(d)
 	return fmt.Sprintf("%d.?%s", k, common.Hex(string(js))), ann
 }
 
@@ -363,6 +375,20 @@ func validateLayout(dir string, ignore map[string]bool) (bool, [][2]string) {
 	}
 	if dec.More() {
 		add("layout-index-parse", "index.json has trailing data")
+	}
+	// nothing but the layout: no temporary files of interrupted or finished writes
+	if top, err := os.ReadDir(dir); err == nil {
+		for _, e := range top {
+			switch e.Name() {
+			case "oci-layout", "index.json", "blobs":
+			case "ingest":
+				if left, _ := os.ReadDir(filepath.Join(dir, "ingest")); len(left) > 0 {
+					add("layout-leftover-file", fmt.Sprintf("ingest/ holds %d file(s) at a quiescent point, e.g. %s", len(left), left[0].Name()))
+				}
+			default:
+				add("layout-leftover-file", "unexpected entry in the layout directory: "+e.Name())
+			}
+		}
 	}
 	// blobs: name = digest of bytes
 	sizes := map[string]int64{}
@@ -620,7 +646,9 @@ func (r *runner) exec(op string) string {
 			d.Annotations = ann
 		}
 		ref := d.Digest.String()
-		if f[3][0] == 'D' { // the digest string of other content (node j; j = #nodes: a digest of nothing)
+		if f[3] == "B" {
+			ref = badUTF8Name
+		} else if f[3][0] == 'D' { // the digest string of other content (node j; j = #nodes: a digest of nothing)
 			j, _ := strconv.Atoi(f[3][1:])
 			if j < len(g.Nodes) {
 				ref = g.Nodes[j].Desc.Digest.String()
@@ -742,6 +770,25 @@ func (r *runner) checkpoint() string {
 	ways := []way{
 		{"oci.New", func() (target, error) { return oci.New(r.dir) }},
 		{"NewFromFS(os.DirFS)", func() (target, error) { return oci.NewFromFS(ctx, os.DirFS(r.dir)) }},
+		{"NewFromFS(fstest.MapFS)", func() (target, error) {
+			m := fstest.MapFS{}
+			err := filepath.WalkDir(r.dir, func(p string, d fs.DirEntry, err error) error {
+				if err != nil || d.IsDir() {
+					return err
+				}
+				rel, _ := filepath.Rel(r.dir, p)
+				data, err := os.ReadFile(p)
+				if err != nil {
+					return err
+				}
+				m[filepath.ToSlash(rel)] = &fstest.MapFile{Data: data, Mode: 0o444}
+				return nil
+			})
+			if err != nil {
+				panic(err)
+			}
+			return oci.NewFromFS(ctx, m)
+		}},
 		{"NewFromTar", func() (target, error) {
 			if err := writeTar(r.dir, tarPath, len(r.h.Ops)%nTarStyles); err != nil {
 				panic(err)
@@ -749,6 +796,7 @@ func (r *runner) checkpoint() string {
 			return oci.NewFromTar(ctx, tarPath)
 		}},
 	}
+	indexBefore, _ := os.ReadFile(filepath.Join(r.dir, "index.json"))
 	// ground truth for predecessors: stored manifests that list the node
 	var truth []string
 	for _, n := range w.g.Nodes {
@@ -807,6 +855,9 @@ func (r *runner) checkpoint() string {
 		}
 	}
 	os.Remove(tarPath)
+	if after, _ := os.ReadFile(filepath.Join(r.dir, "index.json")); !bytes.Equal(after, indexBefore) {
+		r.fail("reopen-rewrites-index", fmt.Sprintf("opening the directory changed index.json: %q -> %q", indexBefore, after))
+	}
 	ignore := map[string]bool{}
 	var xs []string
 	for _, st := range r.strays {
@@ -972,6 +1023,9 @@ func (r *runner) generate(rnd *common.Rand, nops int) {
 			ref := strconv.Itoa(t)
 			if rnd.Chance(1, 10) {
 				ref = "d"
+			} else if rnd.Chance(1, 25) {
+				ref = "B"
+				run.Count("tag:invalid-utf8-reference")
 			} else if rnd.Chance(1, 12) {
 				j := rnd.Intn(len(g.Nodes) + 1)
 				if j != k {
